@@ -61,7 +61,10 @@ PROPS = {
                 viol_line_regex=r'^VIOL \d+ \S+ (?!crash\.img)',
                 rule="same workloads; the tap tracks the fsynced length of every file (renames carry it); after every operation power-loss images cut "
                      "files back to lengths between fsynced and current (all files at once, each single file at sampled / every length, random vectors; "
-                     "8-byte headers atomic); a case is one loss image, non-trivial when at least one file is actually cut"),
+                     "8-byte headers atomic); sampled images lose power a second time right after their recovery (+again) or die inside it (+inrec); "
+                     "`died` images: the process dies with its unsynced tails in place, a new process opens with Recover and calls Sync - whose "
+                     "answer must acknowledge everything - and then the power goes; a case is one loss image, non-trivial when at least one file "
+                     "is actually cut"),
     'C07': dict(quick=dict(profiles=[prof('damage', 96, 1)]), thorough=dict(profiles=[prof('damage', 640, 2)]),
                 rule="head segments of 1-6 random messages x 4 index configurations (V2; V1 for truncation): every truncation length, every "
                      "single-byte corruption position after the file header, zero/0xFF/random tails, every index damage; real Segment.Check/"
@@ -83,7 +86,10 @@ PROPS = {
                      "a Delete whose lowest offset was live throughout deletes it; NextOffset/Sync within the acknowledged/invoked bounds; an "
                      "answer that ends the log or a segment ends it between batches (BatchAtomic); final scan = published - reported; final Check "
                      "passes; plus the race detector's verdict and any crash of the process (a fault in unmapped memory); in a third of the histories "
-                     "one goroutine does nothing but GC(0), in a third every record is larger than a page and the head long-lived; a case is one window / one history, "
+                     "one goroutine does nothing but GC(0), in a third every record is larger than a page and the head long-lived, in a third every "
+                     "record reaches its file in two halves microseconds apart (verif hook: a write in progress as a concurrent reader of the file may "
+                     "see it), in a quarter the log starts with closed segments whose index files are missing and several readers meet them at once, "
+                     "in half the publishers leave the time to Publish (monotone times: the final Check counts in full); a case is one window / one history, "
                      "non-trivial when the held call reached its window and another call ran inside it / when a delete and a rollover happened",
                 assumptions=["the Go race detector sees the races of the schedules that ran (it is not exhaustive)",
                              "pause points mark the windows the property names; windows inside the kernel (page-wise visibility of one write) are only reached by the free-running part",
